@@ -37,6 +37,12 @@ pub fn advance_ns(ns: u64) {
     VIRT_NANOS.with(|c| c.set(c.get() + ns));
 }
 
+/// Back to zero. Only between cases, when nothing that holds an `Instant` is alive any more (the
+/// counter would otherwise overflow after some five hundred 400-day jumps on one worker thread).
+pub fn reset() {
+    VIRT_NANOS.with(|c| c.set(0));
+}
+
 pub fn advance_ms(ms: u64) {
     advance_ns(ms * 1_000_000);
 }
